@@ -306,6 +306,13 @@ def main():
         print(l)
     if not os.environ.get("VERIF_KEEP"):
         shutil.rmtree(run_dir, ignore_errors=True)
+        if os.environ.get("VERIF_REPO"):  # sensitivity run against a scratch worktree: its binaries and modfiles are of no further use
+            tag = hashlib.sha256(os.environ["VERIF_REPO"].encode()).hexdigest()[:10]
+            for f in ("props.%s.test" % tag, "props.race.%s.test" % tag, "go.%s.mod" % tag, "go.%s.sum" % tag):
+                try:
+                    os.remove(os.path.join(BUILD, f))
+                except OSError:
+                    pass
     if violations:
         for v in violations[:1]:
             print("VIOLATION property=%s replay=%s" % (prop, v))
